@@ -71,6 +71,8 @@ func profileConfig(p string, seed uint64) RunConfig {
 		c.NSlots = 2 + r.IntN(3)
 	case "C06":
 		c.Faults = append(c.Faults, "n4")
+		c.NSMF = 2 + r.IntN(2)
+		c.CoLoc = r.IntN(3) == 0
 	case "C07":
 		if r.IntN(2) == 0 {
 			c.Driver = "empty"
@@ -78,6 +80,7 @@ func profileConfig(p string, seed uint64) RunConfig {
 		c.AutoAnswer = r.IntN(2) == 0 // leave UPF-initiated requests outstanding in half the runs
 	case "C08":
 		c.NSMF = 2 + r.IntN(3)
+		c.CoLoc = r.IntN(3) == 0
 		if r.IntN(2) == 0 {
 			c.Faults = append(c.Faults, "n4")
 		}
@@ -95,6 +98,14 @@ func profileConfig(p string, seed uint64) RunConfig {
 			c.TxSeqStart = ^uint32(0) - uint32(r.IntN(4))
 		case 4:
 			c.TxSeqStart = r.Uint32()
+		}
+	case "C11":
+		if r.IntN(2) == 0 {
+			// a report whose first transmission fails is retransmitted later: the numbering
+			// must not notice
+			c.Faults = append(c.Faults, "n4")
+			c.RetransMs = pick(r, 137, 311)
+			c.MaxRetrans = 1 + r.IntN(3)
 		}
 	case "C13", "C14":
 		if r.IntN(4) == 0 {
@@ -175,6 +186,9 @@ func newGen(s *Sim) *Gen {
 			g.w["fault"] = 2
 		}
 		g.perioOK = p == "C03"
+		if p == "C03" {
+			g.w["advp"] = 3
+		}
 	case "C04":
 		g.w = map[string]int{"hb": 1, "assoc": 1, "est": 10, "mod": 4, "del": 8, "reassoc": 3, "probe": 10, "krep": 3, "ansseid0": 3, "adv": 1}
 	case "C05":
@@ -182,6 +196,11 @@ func newGen(s *Sim) *Gen {
 		g.w["ans"] = 2
 	case "C06":
 		g.w = map[string]int{"hb": 6, "assoc": 2, "est": 6, "mod": 8, "del": 3, "other": 3, "dup": 14, "hold": 4, "deliver": 5, "adv": 8, "advwin": 4, "sameseq": 6}
+		if s.cfg.Seed%2 == 0 {
+			// the UPF's own requests (reports) and their answers in between: both directions
+			// number their requests from small integers and use the same addresses
+			g.w["krep"], g.w["kbufnocp"], g.w["ans"] = 4, 3, 3
+		}
 	case "C08":
 		g.w = map[string]int{"hb": 4, "assoc": 2, "reassoc": 1, "est": 8, "mod": 8, "del": 3, "adv": 3, "advbig": 2, "badest": 5, "probe": 4, "other": 2, "unknownpeer": 2}
 		g.perioOK = false
